@@ -86,6 +86,10 @@ Definition trim (s : bytes) : bytes := rev (drop_while is_ws (rev (drop_while is
 
 Definition is_digit (b : N) : bool := (48 <=? b) && (b <=? 57).
 
+(* characters of plain identifiers: ASCII letters, digits, underscore *)
+Definition name_char (b : N) : bool :=
+  is_digit b || ((65 <=? b) && (b <=? 90)) || ((97 <=? b) && (b <=? 122)) || (b =? 95).
+
 (* usize::MAX on the 64-bit target the harness is built for *)
 Definition USIZE_MAX : N := 18446744073709551615.
 
@@ -107,14 +111,14 @@ Definition parse_usize (s : bytes) : option N :=
   end.
 
 (* Display for usize: decimal digits, most significant first.  [fuel] bounds the number of
-   digits; [to_dec] supplies the number of bits + 1, which is always enough. *)
+   digits; [to_dec] supplies the number of bits + 1, which is always enough (BytesProps.to_dec_value). *)
 Fixpoint to_dec_fuel (fuel : nat) (n : N) (acc : bytes) : bytes :=
   match fuel with
   | O => acc
   | S f => let acc' := (48 + n mod 10) :: acc in
            if n <? 10 then acc' else to_dec_fuel f (n / 10) acc'
   end.
-Definition to_dec (n : N) : bytes := to_dec_fuel (S (N.size_nat n)) n [].
+Definition to_dec (n : N) : bytes := to_dec_fuel (S (N.to_nat (N.size n))) n [].
 
 (* a.iter().reduce(|a, b| a + sep + b) *)
 Fixpoint join (sep : bytes) (l : list bytes) : bytes :=
